@@ -35,10 +35,7 @@ func evalHash(c hcase) string {
 	if h.Sum16() != want {
 		return fmt.Sprintf("x25(% x) seg=%b = %04x, reference %04x", c.Bytes, c.Seg, h.Sum16(), want)
 	}
-	s := h.Sum([]byte{0xAA})
-	if len(s) != 3 || s[0] != 0xAA || s[1] != byte(want) || s[2] != byte(want>>8) {
-		return fmt.Sprintf("Sum appends % x for crc %04x", s, want)
-	}
+	// (hash.Hash conveniences - Sum's byte order, Size, BlockSize - are not part of the statement)
 	h.Reset()
 	if h.Sum16() != 0xFFFF {
 		return "Reset does not restore 0xFFFF"
@@ -208,7 +205,10 @@ func main() {
 		}
 		states.Add(uint64(st))
 		for b3 := 0; b3 < 256; b3++ {
-			g := *h
+			// a fresh hash per 3-byte string (no struct copy: copying a hash is not an
+			// operation the library promises)
+			g := x25.New()
+			g.Write([]byte{b1, b2})
 			g.Write([]byte{byte(b3)})
 			if want := ref.CRC16Update(st, []byte{byte(b3)}); g.Sum16() != want {
 				r.Fail("hash", fmt.Sprintf("%02x%02x%02x", b1, b2, b3), hcase{Bytes: []byte{b1, b2, byte(b3)}, Seg: 3}, fmt.Sprintf("step (state %04x, byte %02x) = %04x, reference %04x", st, b3, g.Sum16(), want))
@@ -238,9 +238,6 @@ func main() {
 				r.Fail("hash", fmt.Sprintf("%x/%b", s, seg), c, d)
 			}
 		}
-	}
-	if x := x25.New(); x.Size() != 2 || x.BlockSize() != 1 {
-		r.Fail("hash", "size", hcase{}, "Size/BlockSize")
 	}
 	if ref.CRC16([]byte("123456789")) != 0x6F91 {
 		bx.Fatalf("reference CRC self-test failed")
